@@ -248,10 +248,11 @@ var wC22 = weights{"tip": 6, "past": 5, "update": 4, "resubmit": 2, "conflict": 
 
 func TestC22(t *testing.T) {
 	vx.Check(t, vx.Prop[Case]{
-		ID:        "C22",
-		Rule:      "C20-style histories with heights drawn from a universe rich in awkward encodings (47=0x2f, 0x2f00, 0x2f2f2f, 255/256, 2^32+-1, 2^62) and several revisions in one store via recovery from a substitute on revision V-2; non-trivial = >=4 stored heights incl. an awkward one and >=1 prune; distinct by full history",
-		MinNTFrac: 0.2,
-		Gen:       func(t *rapid.T) Case { return genCase(t, wC22, 36, func(i, n int) int { return 3 }) },
-		Run:       runC22(t),
+		ID:          "C22",
+		Rule:        "C20-style histories with heights drawn from a universe rich in awkward encodings (47=0x2f, 0x2f00, 0x2f2f2f, 255/256, 2^32+-1, 2^62) and several revisions in one store via recovery from a substitute on revision V-2; non-trivial = >=4 stored heights incl. an awkward one and >=1 prune; distinct by full history",
+		MinNTFrac:   0.2,
+		Assumptions: []string{"counterparty chain V is virtual: the harness owns its validator keys (ed25519 from secret val-<i>) and signs headers itself", "recovery = ClientKeeper.RecoverClient (MsgRecoverClient after its authority check); upgrades and client genesis import are not exercised", "raw client store parsed by its documented key layout; stored protobuf values decoded with the app codec"},
+		Gen:         func(t *rapid.T) Case { return genCase(t, wC22, 36, func(i, n int) int { return 3 }) },
+		Run:         runC22(t),
 	})
 }
